@@ -11,7 +11,7 @@ import numpy as np
 import z3
 
 from e1_jaxpr.interp import AbsKey, Ctx, _is_key_dtype, _kind
-from e1_jaxpr.trace import Traced
+from e1_jaxpr.trace import Traced, fresh_copy
 from symcore import sarray as S
 from symcore import values as V
 from symcore.solver import Session, model_value
@@ -224,7 +224,7 @@ class E1:
             conc_args, js = concretise(self.ins, model, self.example_args)
             S.MODE.numeric, S.MODE.tol = True, TOL
             try:
-                real_outs = self.fn(*conc_args)
+                real_outs = self.fn(*fresh_copy(conc_args))
                 ok = pred(as_obj(conc_args), as_obj(real_outs), self._real_noise(conc_args))
                 if isinstance(ok, S.SA):
                     ok = ok.all()
@@ -292,7 +292,7 @@ class E1:
             cB, jsB = concretise(insB, model, self.example_args)
             S.MODE.numeric, S.MODE.tol = True, 1e-4
             try:
-                ok = pred2(as_obj(cA), as_obj(self.fn(*cA)), as_obj(cB), as_obj(self.fn(*cB))).all()
+                ok = pred2(as_obj(cA), as_obj(self.fn(*fresh_copy(cA))), as_obj(cB), as_obj(self.fn(*fresh_copy(cB)))).all()
             finally:
                 S.MODE.numeric, S.MODE.tol = False, 0.0
             self.rep.replayed += 1
